@@ -862,6 +862,8 @@ _RHO, _PHI = "A->R_BD.CR_BD->B.D_total_0r", "A->R_BD.CR_BD->B.D_total_0i"
 _RHO2 = "A->R_BD.C_g_ls_1r"
 _RHO_BC, _PHI_BC = "A->R_BC.DR_BC->B.C_total_0r", "A->R_BC.DR_BC->B.C_total_0i"
 _BASE_FIX = {"R_BC->B.C_g_ls_1r": 0.8, "R_BC->B.C_g_ls_1i": 0.4, "R_BD->B.D_g_ls_1r": 1.1, "R_BD->B.D_g_ls_1i": -0.3}
+#: the fixed values of the set "fixed": six floating parameters remain (two couplings of A->R_BC.D, magnitude and phase of the R_BD chain, R_BC mass, width)
+_FIX2 = dict(_BASE_FIX, **{"A->R_BD.C_g_ls_1r": 0.9, "A->R_BD.C_g_ls_1i": 0.2})
 #: constraint sets: name -> (constrains, particle_extra, start overrides, bounds expected {name: (lo, hi)}, gaussian constraints expected)
 CONSTRAINT_SETS = {
     "none": ({"fix_var": _BASE_FIX}, None, {}, {}),
@@ -883,7 +885,21 @@ CONSTRAINT_SETS = {
     "zero_bound_upper": ({"fix_var": _BASE_FIX, "decay": {"fix_chain_idx": 1, "fix_chain_val": 1.0},
                           "var_range": {_PHI_BC: [-3.14, 0.0], _RHO_BC: [0.1, None], _TIED[0]: [0, None]}}, None, {_PHI_BC: -0.4, _RHO_BC: 0.7},
                          {_PHI_BC: (-3.14, 0.0), _RHO_BC: (0.1, None), _TIED[0]: (0, None)}),
+    # a Gaussian constraint that PULLS: with these six floating parameters the unconstrained optimum of the toy sample has R_BC_mass ~ 4.198,
+    # NLL -76.6 (BFGS and iminuit agree; the toy sample determines the mass only to ~0.03).  The constraint 4.12 +- 0.007 is ~11 sigma below it: the
+    # constrained optimum sits ~2 sigma above the mean (term ~2), the start (configured mass 4.16) carries a term of 16.  A minimiser that drops the
+    # constraint term returns a point whose constrained NLL is ~60 above the one it reports and ~20 above the starting NLL.  Six floating
+    # parameters keep an iminuit fit at ~30 s.
+    "gauss_pull": ({"fix_var": _FIX2, "gauss_constr": {"R_BC_mass": [4.12, 0.007], "A->R_BD.CR_BD->B.D_total_0r": [1.0, 0.3]}}, None, {}, {}),
+    # staged fits (iface.fit/staged_session): same six floating parameters; the data push R_BC_mass (start 4.16 = configured m0) against its upper
+    # limit 4.18 (unconstrained optimum ~4.198); the width limits [0.02, 0.25] are not active (the configured width 0.1 is interior)
+    "staged_two_sided": ({"fix_var": _FIX2}, {"R_BC": {"m_min": 4.1, "m_max": 4.18, "g_min": 0.02, "g_max": 0.25}}, {},
+                         {"R_BC_mass": (4.1, 4.18), "R_BC_width": (0.02, 0.25)}),
 }
+#: Gaussian constraints of the sets above as configured, {set: {parameter: (mean, sigma)}} (the harness' own table, not config.gauss_constr_dic)
+_GAUSS_EXPECT = {k: {n: (float(m), float(s)) for n, (m, s) in v[0]["gauss_constr"].items()} for k, v in CONSTRAINT_SETS.items() if "gauss_constr" in v[0]}
+#: the constraint of gauss_pull that is far from the unconstrained optimum
+_PULLED = {"gauss_pull": "R_BC_mass"}
 #: sets with limits exactly 0 -> {parameter: sign of dNLL/dparameter at the starting point that pushes the parameter across its zero limit}
 _ZERO_PUSH = {"zero_bound": {_PHI: +1.0}, "zero_bound_upper": {_PHI_BC: -1.0}}
 _ZERO_SETS = list(_ZERO_PUSH)
@@ -894,7 +910,7 @@ _FIT_CLAUSES = {
     "returns": "config.fit(...) returns a FitResult (no exception) for this minimiser name",
     "state_equals_result": "after fit: config.get_params()[name] == fit_result.params[name] for every listed name (exactly)",
     "min_nll_is_nll_at_result": "fit_result.min_nll == fcn(fit_result.params) (rtol 1e-9)",
-    "not_above_start": "fit_result.min_nll <= NLL at the starting point + 1e-9",
+    "not_above_start": "fit_result.min_nll <= NLL at the starting point + 1e-9, and so is the NLL (constraint terms included) evaluated at fit_result.params",
     "fixed_unchanged": "parameters that are not trainable have the same value after the fit; the list of trainable parameters is unchanged",
     "tied_equal": "tied parameters are equal after the fit (in the model and in the result)",
     "inside_bounds": "bounded parameters lie inside their bounds after the fit (in the model and in the result)",
@@ -903,7 +919,16 @@ _FIT_CLAUSES = {
     "bounds_handed_to_minimiser": "every call of scipy.optimize.minimize made by the fit receives each configured bound exactly - limit by limit, a limit "
                                   "of 0 / 0.0 is a limit, None is no limit - either as its `bounds` entry for that parameter or as the active variable "
                                   "transformation vm.bnd_dic[name]; parameters without a configured bound are not restricted",
+    "min_nll_includes_gauss_term": "with Gaussian constraints configured the reported minimum INCLUDES the constraint term: fit_result.min_nll == defining-formula "
+                                   "NLL at fit_result.params (numpy oracle of C06) + sum (theta - mu)^2 / (2 sigma^2) over the configured constraints (rtol 1e-9)",
+    "loader_constraints_unchanged": "a fit does not change the constraint bookkeeping of the session: config.bound_dic and config.gauss_constr_dic hold after the "
+                                    "fit exactly the entries (names; lower, upper / mean, sigma) they held before it - also the entries of parameters that do "
+                                    "not float in this fit (a later fit of the session in which they float again must still find them)",
 }
+_PRE_PULL_CLAUSE = ("harness: at the point returned by a fit of the set gauss_pull that reports success (converged) the constrained mass lies >= 1 sigma "
+                    "away from the constraint mean: the constraint term is non-zero at the optimum")
+_PRE_STAGED_CLAUSE = ("harness: the last fit of a staged sequence that was not stopped early returns the released parameter R_BC_mass within 5% of the width of "
+                      "its interval [4.1, 4.18] from the upper limit (the data push it against the limit: a lost bound would be visible)")
 
 
 def _fit_config(ctx, cset, seed):
@@ -948,10 +973,24 @@ def _check_handed_bounds(agg, method, bounds, calls, trainable, wit):
             dict(wit, bounds={k: list(v) for k, v in bounds.items()}, not_handed_over=bad[:6], n_minimize_calls=len(calls)))
 
 
-def _fit_once(ctx, agg, method, cset, maxiter, cfg, config, bounds, samples, tmpdir, tagextra):
-    """one config.fit(...) call + all postconditions of the statement.  returns False if fit raised"""
+def _limit_repr(v):
+    try:
+        return None if v is None else float(v)
+    except (TypeError, ValueError):
+        return repr(v)
+
+
+def _loader_constraints(config):
+    """the constraint bookkeeping of the ConfigLoader session as plain data: {"bound_dic": {name: [lo, hi]}, "gauss_constr_dic": {name: [mu, sigma]}}"""
+    return {attr: {str(k): [_limit_repr(x) for x in v] for k, v in dict(getattr(config, attr)).items()} for attr in ("bound_dic", "gauss_constr_dic")}
+
+
+def _fit_once(ctx, agg, method, cset, maxiter, cfg, config, bounds, samples, tmpdir, tagextra, history=None):
+    """one config.fit(...) call + all postconditions of the statement.  returns False if fit raised
+    history: what happened in this session before this fit (staged sequences), copied into the witness"""
     data, phsp, bg = samples
     vm = config.vm
+    loader_before = _loader_constraints(config)
     with L.quiet():
         fcn0 = config.get_fcn([[data], [phsp], [bg], None])
         nll_start = float(fcn0({}))
@@ -966,6 +1005,9 @@ def _fit_once(ctx, agg, method, cset, maxiter, cfg, config, bounds, samples, tmp
                 "harness: at the starting point of the zero-limit sets the gradient points across the limit that is exactly 0 (|dNLL/dphase| > 1)",
                 {"constraints": cset, "start_params": before, "gradient_at_start": g_start, "bounds": {k: list(v) for k, v in bounds.items()}})
     wit0 = {"method": method, "constraints": cset, "maxiter": maxiter, "run": tagextra, "sample_seed": 800, "start_params": before, "nll_start": nll_start}
+    if history is not None:
+        wit0["session_history"] = list(history)
+        wit0["trainable"] = trainable_before
     key = (method, cset, maxiter, tagextra)
 
     def run():
@@ -992,10 +1034,25 @@ def _fit_once(ctx, agg, method, cset, maxiter, cfg, config, bounds, samples, tmp
     bad = {k: (rp[k], after.get(k)) for k in rp if not (k in after and rp[k] == after[k])}
     agg.add(method + "/state_equals_result", not bad and len(rp) > 0, _FIT_CLAUSES["state_equals_result"], dict(wit, differing=bad))
     # (2) reported minimum == NLL at the reported parameters (evaluated on an independent FCN; the model state is restored afterwards)
+    gauss = None
     with L.quiet():
         nll_at = float(fcn0(dict(rp)))
+        if cset in _GAUSS_EXPECT:
+            # the model now holds the listed point: defining formula (numpy) + constraint term from the harness' own table
+            formula, fmin = L.oracle_nll(config, "std", data, phsp, bg)
+            gauss = (formula, fmin, L.gauss_term(dict(after, **rp), _GAUSS_EXPECT[cset]))
         config.set_params(after)
     agg.add(method + "/min_nll_is_nll_at_result", _veq(res.min_nll, nll_at, atol=1e-9), _FIT_CLAUSES["min_nll_is_nll_at_result"], dict(wit, nll_at_result_params=nll_at))
+    if gauss is not None and gauss[1] > 2e-6:  # the formula is only claimed above the clip_log threshold of the library (as in iface.nll/formula)
+        formula, fmin, gterm = gauss
+        # same conditioning as the C06 value obligations (sum of ~1400 terms, rtol 1e-9); the constraint term is a sum of two exact-ish squares
+        agg.add(method + "/min_nll_includes_gauss_term", _veq(res.min_nll, formula + gterm, atol=1e-9), _FIT_CLAUSES["min_nll_includes_gauss_term"],
+                dict(wit, gauss_constraints={k: list(v) for k, v in _GAUSS_EXPECT[cset].items()}, formula_nll_at_result_params=formula,
+                     gauss_term_at_result_params=gterm, expected_min_nll=formula + gterm, nll_at_result_params=nll_at))
+        if cset in _PULLED and bool(res.success):
+            mu, sg = _GAUSS_EXPECT[cset][_PULLED[cset]]
+            pull = (dict(after, **rp)[_PULLED[cset]] - mu) / sg
+            agg.add("precondition/gauss_pull_active", abs(pull) >= 1.0, _PRE_PULL_CLAUSE, dict(wit, pull_in_sigma=pull, gauss_term_at_result_params=gterm))
     # (3) not above the start
     agg.add(method + "/not_above_start", res.min_nll <= nll_start + 1e-9 and nll_at <= nll_start + 1e-9, _FIT_CLAUSES["not_above_start"],
             dict(wit, nll_at_result_params=nll_at))
@@ -1023,6 +1080,11 @@ def _fit_once(ctx, agg, method, cset, maxiter, cfg, config, bounds, samples, tmp
     # (7) bound bookkeeping restored
     agg.add(method + "/bnd_dic_restored", set(vm.bnd_dic) == set(bnd_before), _FIT_CLAUSES["bnd_dic_restored"],
             dict(wit, bnd_dic_before=sorted(bnd_before), bnd_dic_after=sorted(vm.bnd_dic)))
+    # (7b) constraint bookkeeping of the loader (what the NEXT fit of this session will be handed)
+    loader_after = _loader_constraints(config)
+    agg.add(method + "/loader_constraints_unchanged", loader_after == loader_before, _FIT_CLAUSES["loader_constraints_unchanged"],
+            dict(wit, loader_before=loader_before, loader_after=loader_after,
+                 lost={a: sorted(set(loader_before[a]) - set(loader_after[a])) for a in loader_before}))
     # (8) save / load into a freshly built model
     path = os.path.join(tmpdir, "fit_%s_%s_%s_%s.json" % (method, cset, maxiter, tagextra))
 
@@ -1126,7 +1188,9 @@ def _reload_fits(ctx, agg, floats, methods, maxiters):
 
 
 _C08_BOUND = ("tiny model (A -> B C D, 2 resonances, 300 data + 60 background rows, 1000 phase-space rows, default likelihood), constraint sets "
-              "{none, fixed, tied, one_sided, two_sided, gauss, zero_bound, zero_bound_upper} (quick: two or three of them per method), maxiter in {1, 5, 30} "
+              "{none, fixed, tied, one_sided, two_sided, gauss, zero_bound, zero_bound_upper, gauss_pull (six floating parameters, R_BC_mass constrained to "
+              "4.12 +- 0.007, ~11 sigma off the unconstrained optimum), staged_two_sided (six floating parameters, R_BC_mass in [4.1, 4.18], upper limit "
+              "active)} (quick: two to four of them per method), maxiter in {1, 5, 30} "
               "(thorough {1, 5, library default}), a second fit in the same session after the last one; the zero_bound sets have limits that are exactly "
               "0 / 0.0 (phase in [0, 3.14] resp. [-3.14, 0.0] pushed against the zero limit, magnitudes in [0.0, None], [0, None], [0.1, None]; quick: "
               "one fit, maxiter 30); for every fit with bounds that goes through scipy.optimize.minimize the call is intercepted (module attribute "
@@ -1138,17 +1202,19 @@ _C08_BOUND = ("tiny model (A -> B C D, 2 resonances, 300 data + 60 background ro
                           "test (fit_improve.minimize), Nelder-Mead (quick: set none, maxiter 5; thorough: sets none, two_sided, zero_bound*, maxiter 1, 5, 40); "
                           "reload: R_BC declared with float: m | g | mg | none, BFGS stopped after 4 iterations (thorough: also L-BFGS-B, also 30), "
                           "FitResult.save_as and ConfigLoader.save_params, each loaded with set_params(file) into a freshly built ConfigLoader: every "
-                          "parameter of the model exactly and the NLL")
+                          "parameter of the model exactly and the NLL; pulling Gaussian constraint (set gauss_pull): quick BFGS maxiter 30 + second fit, CG, test, "
+                          "Nelder-Mead maxiter 5; thorough all maxiter")
 def fit_first_order(ctx):
     agg = Agg()
     if ctx.tier == "quick":
         _fit_group(ctx, ["BFGS"], ["tied", "two_sided", "gauss"], [1, 5, 30], agg=agg)
+        _fit_group(ctx, ["BFGS"], ["gauss_pull"], [30], agg=agg)
         _fit_group(ctx, ["BFGS"], _ZERO_SETS, [30], second_fit=False, agg=agg)
-        _fit_group(ctx, ["CG", "test", "Nelder-Mead"], ["none"], [5], second_fit=False, agg=agg)
+        _fit_group(ctx, ["CG", "test", "Nelder-Mead"], ["none", "gauss_pull"], [5], second_fit=False, agg=agg)
         _reload_fits(ctx, agg, ["m", "g", "mg", None], ["BFGS"], [4])
     else:
         _fit_group(ctx, ["BFGS"], list(CONSTRAINT_SETS), [1, 5, None], agg=agg)
-        _fit_group(ctx, ["CG", "test", "Nelder-Mead"], ["none", "two_sided"] + _ZERO_SETS, [1, 5, 40], agg=agg)
+        _fit_group(ctx, ["CG", "test", "Nelder-Mead"], ["none", "two_sided", "gauss_pull"] + _ZERO_SETS, [1, 5, 40], agg=agg)
         _reload_fits(ctx, agg, ["m", "g", "mg", None], ["BFGS", "L-BFGS-B"], [4, 30])
     agg.emit(ctx)
 
@@ -1164,10 +1230,10 @@ def _have_iminuit(ctx):
     return have
 
 
-def _fit_plan(ctx, plan, seed_offset, prefit=False, second_fit=True):
+def _fit_plan(ctx, plan, seed_offset, prefit=False, second_fit=True, agg=None):
     """plan: [(method, [constraint sets])], maxiter = library default"""
     np.random.seed(ctx.seed + seed_offset)
-    agg = Agg()
+    agg = Agg() if agg is None else agg
     with L.scratch_dir() as tmp:
         for method, csets in plan:
             for cset in csets:
@@ -1185,36 +1251,119 @@ def _fit_plan(ctx, plan, seed_offset, prefit=False, second_fit=True):
     return agg
 
 
+# ---- staged / repeated fits in ONE ConfigLoader session: the trainability of a bounded parameter changes between the fits
+#
+# The staged parameter is R_BC_mass of the set staged_two_sided (interval [4.1, 4.18], the data push it against the upper limit).  Its trainability is
+# changed between two fits with the public VarsManager.set_fix(name) / set_fix(name, unfix=True) (what ConfigLoader.likelihood_profile does and what a
+# user does for a staged fit).  In the first stage of fixed_then_released the mass is held at its configured value 4.16, so that a freshly built
+# ConfigLoader has the same fixed value (minimisers that list only the floating parameters in their result are not asked to store a fixed value).
+_STAGED_SET, _STAGED_PAR = "staged_two_sided", "R_BC_mass"
+#: sequence name -> is the staged parameter FIXED in stage 1, 2, ...
+_STAGED_SEQS = {"fixed_then_released": (True, False), "released_fixed_released": (False, True, False)}
+
+
+def _staged_fits(ctx, agg, plan, seed_offset=84):
+    """plan: [(sequence name, [(method, maxiter) for each stage])].  One ConfigLoader session per plan entry; after EVERY fit of the sequence all
+    postconditions of the statement (_fit_once: result == state, reported minimum, fixed, bounds, bound bookkeeping of vm and of the loader, save/load)"""
+    np.random.seed(ctx.seed + seed_offset)
+    lo, hi = CONSTRAINT_SETS[_STAGED_SET][3][_STAGED_PAR]
+    with L.scratch_dir() as tmp:
+        for seq, stages in plan:
+            fixed_in = _STAGED_SEQS[seq]
+            assert len(stages) == len(fixed_in), (seq, stages)
+            label = seq + "." + "+".join("%s@%s" % (m, "default" if mi is None else mi) for m, mi in stages)
+            with _case(ctx, agg, stages[0][0] + "/returns", _FIT_CLAUSES["returns"], {"sequence": label, "constraints": _STAGED_SET, "sample_seed": 800}):
+                cfg, config, bounds = _fit_config(ctx, _STAGED_SET, seed=47)
+                samples = L.make_samples(config, 800, n_data=300, n_phsp=1000, n_bg=60, weights=None, phsp_weights=None)
+                vm = config.vm
+                history, done, last = [], True, None
+                for i, ((method, mi), fix) in enumerate(zip(stages, fixed_in)):
+                    is_fixed = _STAGED_PAR not in vm.trainable_vars
+                    if fix != is_fixed:
+                        with L.quiet():
+                            vm.set_fix(_STAGED_PAR, unfix=not fix)
+                        history.append("vm.set_fix(%r%s)" % (_STAGED_PAR, "" if fix else ", unfix=True"))
+                    tag = "%s.stage%d_%s" % (label, i + 1, "fixed" if fix else "floating")
+                    ok = _fit_once(ctx, agg, method, _STAGED_SET, mi, cfg, config, bounds, samples, tmp, tag, history=history)
+                    history.append("config.fit(method=%r, maxiter=%r) with %s %s" % (method, mi, _STAGED_PAR, "fixed" if fix else "floating"))
+                    if not ok:
+                        done = False
+                        break
+                    last = (method, mi, fix)
+                if done and last is not None and not last[2] and (last[1] is None or last[1] >= 30):
+                    v = float(config.get_params()[_STAGED_PAR])
+                    agg.add("precondition/staged_bound_active", v >= hi - 0.05 * (hi - lo), _PRE_STAGED_CLAUSE,
+                            {"sequence": label, "session_history": history, _STAGED_PAR: v, "interval": [lo, hi]})
+
+
+def _staged_plan(methods, seqs, maxiter=None):
+    return [(seq, [(m, maxiter)] * len(_STAGED_SEQS[seq])) for m in methods for seq in seqs]
+
+
+@group(["C08"], "iface.fit/staged_session", _FIT_FUNCS + ["variable:VarsManager.set_fix"], env="tf", kind="B",
+       bound=_C08_BOUND + "STAGED fits in one ConfigLoader session, set staged_two_sided, the bounded R_BC_mass changes trainability between the fits through "
+                          "vm.set_fix: sequences fixed_then_released (mass fixed at 4.16 -> fit -> released -> fit) and released_fixed_released (fit -> mass fixed "
+                          "where the fit left it -> fit -> released -> fit), every postcondition after EVERY fit.  quick: BFGS fixed_then_released (maxiter 30, 30) and "
+                          "released_fixed_released (5, 5, 30), L-BFGS-B fixed_then_released (5, 30) [iminuit: iface.fit/lbfgsb_minuit]; thorough: BFGS, CG, L-BFGS-B, "
+                          "iminuit both sequences with the library default maxiter, BFGS and L-BFGS-B also stopped early (maxiter 5 in every stage but the last), "
+                          "Newton-CG and trust-ncg fixed_then_released")
+def fit_staged_session(ctx):
+    agg = Agg()
+    if ctx.tier == "quick":
+        _staged_fits(ctx, agg, [("fixed_then_released", [("BFGS", 30), ("BFGS", 30)]),
+                                ("released_fixed_released", [("BFGS", 5), ("BFGS", 5), ("BFGS", 30)]),
+                                ("fixed_then_released", [("L-BFGS-B", 5), ("L-BFGS-B", 30)])])
+    else:
+        both = list(_STAGED_SEQS)
+        _staged_fits(ctx, agg, _staged_plan(["BFGS", "CG", "L-BFGS-B"], both))
+        _staged_fits(ctx, agg, [("fixed_then_released", [(m, 5), (m, None)]) for m in ("BFGS", "L-BFGS-B")] +
+                     [("released_fixed_released", [(m, 5), (m, 5), (m, None)]) for m in ("BFGS", "L-BFGS-B")])
+        if _have_iminuit(ctx):
+            _staged_fits(ctx, agg, _staged_plan(["iminuit"], both))
+        _staged_fits(ctx, agg, _staged_plan(["Newton-CG", "trust-ncg"], ["fixed_then_released"]))
+    agg.emit(ctx)
+
+
 @group(["C08"], "iface.fit/lbfgsb_minuit", _FIT_FUNCS, env="tf", kind="B",
-       bound=_C08_BOUND + "method L-BFGS-B (quick: sets fixed, one_sided + both zero_bound sets); iminuit (quick: set two_sided, one fit; thorough: tied, two_sided, gauss + second "
-                          "fit) and minuit (thorough: tied, two_sided) - the minuit names are skipped and recorded if iminuit is not importable")
+       bound=_C08_BOUND + "method L-BFGS-B (quick: sets fixed, one_sided + both zero_bound sets, gauss_pull stopped after 5 iterations); iminuit (quick: set gauss_pull in a fresh "
+                          "session, one fit, and the staged sequence fixed_then_released of iface.fit/staged_session on set staged_two_sided - stage 1 L-BFGS-B "
+                          "maxiter 5 with R_BC_mass fixed, stage 2 iminuit with the mass released; thorough: tied, two_sided, gauss, gauss_pull + second fit) and "
+                          "minuit (thorough: tied, two_sided, gauss_pull) - the minuit names are skipped and recorded if iminuit is not importable")
 def fit_lbfgsb_minuit(ctx):
     quick = ctx.tier == "quick"
+    agg = Agg()
     if quick:
-        _fit_group(ctx, ["L-BFGS-B"], ["fixed", "one_sided"], [1, 5, 30])
-        _fit_group(ctx, ["L-BFGS-B"], _ZERO_SETS, [30], second_fit=False)
+        _fit_group(ctx, ["L-BFGS-B"], ["fixed", "one_sided"], [1, 5, 30], agg=agg)
+        _fit_group(ctx, ["L-BFGS-B"], _ZERO_SETS, [30], second_fit=False, agg=agg)
+        _fit_group(ctx, ["L-BFGS-B"], ["gauss_pull"], [5], second_fit=False, agg=agg)
     else:
-        _fit_group(ctx, ["L-BFGS-B"], list(CONSTRAINT_SETS), [1, 5, None])
+        _fit_group(ctx, ["L-BFGS-B"], list(CONSTRAINT_SETS), [1, 5, None], agg=agg)
     if _have_iminuit(ctx):
-        plan = [("iminuit", ["two_sided"])] if quick else [("iminuit", ["tied", "two_sided", "gauss"]), ("minuit", ["tied", "two_sided"])]
-        _fit_plan(ctx, plan, 82, second_fit=not quick).emit(ctx)
+        if quick:
+            # ~35 s per iminuit fit with six floating parameters: one fresh-session fit with the pulling Gaussian constraint, one fit with (active)
+            # two-sided limits as the second stage of a staged session
+            _fit_plan(ctx, [("iminuit", ["gauss_pull"])], 82, second_fit=False, agg=agg)
+            _staged_fits(ctx, agg, [("fixed_then_released", [("L-BFGS-B", 5), ("iminuit", None)])], seed_offset=85)
+        else:
+            _fit_plan(ctx, [("iminuit", ["tied", "two_sided", "gauss", "gauss_pull"]), ("minuit", ["tied", "two_sided", "gauss_pull"])], 82, agg=agg)
+    agg.emit(ctx)
 
 
 @group(["C08"], "iface.fit/second_order", _FIT_FUNCS, env="tf", kind="B",
-       bound=_C08_BOUND + "methods: quick Newton-CG; thorough Newton-CG (all sets), trust-ncg, trust-krylov, trust-exact (none, one_sided, zero_bound*); these ignore maxiter: one run + second fit")
+       bound=_C08_BOUND + "methods: quick Newton-CG; thorough Newton-CG (all sets), trust-ncg, trust-krylov, trust-exact (none, one_sided, gauss_pull, zero_bound*); these ignore maxiter: one run + second fit")
 def fit_second_order(ctx):
     if ctx.tier == "quick":
         _fit_group(ctx, ["Newton-CG"], ["one_sided", "gauss"], [None])
     else:
         _fit_group(ctx, ["Newton-CG"], list(CONSTRAINT_SETS), [None])
-        _fit_group(ctx, ["trust-ncg", "trust-krylov", "trust-exact"], ["none", "one_sided"] + _ZERO_SETS, [None])
+        _fit_group(ctx, ["trust-ncg", "trust-krylov", "trust-exact"], ["none", "one_sided", "gauss_pull"] + _ZERO_SETS, [None])
 
 
 @group(["C08"], "iface.fit/hessp", _FIT_FUNCS, env="tf", kind="B", tiers=("thorough",),
-       bound=_C08_BOUND + "methods Newton-CG-p (sets none, gauss), trust-ncg-p (none), trust-krylov-p (gauss): Hessian-vector products, ~150 s per fit even when "
+       bound=_C08_BOUND + "methods Newton-CG-p (sets none, gauss), trust-ncg-p (none, gauss_pull), trust-krylov-p (gauss): Hessian-vector products, ~150 s per fit even when "
                           "started 0.2% off a BFGS optimum")
 def fit_hessp(ctx):
-    _fit_plan(ctx, [("Newton-CG-p", ["none", "gauss"]), ("trust-ncg-p", ["none"]), ("trust-krylov-p", ["gauss"])], 81, prefit=True).emit(ctx)
+    _fit_plan(ctx, [("Newton-CG-p", ["none", "gauss"]), ("trust-ncg-p", ["none", "gauss_pull"]), ("trust-krylov-p", ["gauss"])], 81, prefit=True).emit(ctx)
 
 
 # ================================================================================================ C09 (interface part)
